@@ -97,6 +97,15 @@ class Rig:
             return cls(transport=sync_cls.get_transport_class("grpc_asyncio")(channel=self._aio_channel_b))
         return self.run(mk())
 
+    def fresh_rest_client_b(self, file, svc):
+        """a NEW REST client whose endpoint is a second loopback HTTP server -> (client, server)"""
+        if getattr(self, "_http_b", None) is None:
+            self._http_b = servers.HttpLoop()
+            self.ctx.on_close(self._http_b.stop)
+        from google.auth.credentials import AnonymousCredentials
+        cls = getattr(self.package_for(file), svc["name"] + "Client")
+        return cls(transport="rest", credentials=AnonymousCredentials(), client_options={"api_endpoint": self._http_b.endpoint}), self._http_b
+
     def method(self, client, rpc_name):
         return getattr(client, client_method_name(rpc_name))
 
